@@ -490,8 +490,12 @@ class HttpBeaconClient:
     def get_handlers(self, command_id: Union[int, None]) -> List[Callable]:
         """Get a list of handlers for a given command ID."""
         if command_id is not None:
-            task = BeaconCommand(command_id)
-            command_name = task.name.replace("COMMAND_", "").lower() if task else "empty_task"
+            try:
+                task = BeaconCommand(command_id)
+                command_name = task.name.replace("COMMAND_", "").lower() if task else "empty_task"
+            except ValueError:
+                # not a command this library knows: registered and catch-all handlers still apply
+                command_name = f"unknown_{command_id}"
         else:
             command_name = "empty_task"
 
